@@ -376,3 +376,71 @@ Qed.
 
 Print Assumptions C14_remote_delivery.
 Print Assumptions C14_remote_pipeline.
+
+(* --------------------------------------------------------------------------------------------------
+   (S2) completeness.  Proofs: Proofs/RemoteSessionAInv.v (structural invariants of every reachable state),
+   Proofs/RemoteSessionComplete.v.
+   Full statement (for the record): forall c x s, reach c x s -> final s = true -> nfault (ev s) = 0 ->
+       hgot (de s) = hsent (be s) /\ hgot (be s) = hsent (de s) /\ dexec (dm s) = cmd_ids (hsent (be s)).
+   As stated it is FALSE of the faithful model for protocols in which the boss does not read all its answers
+   [C14_remote_complete_needs_final: no fault step, boss exit 0, the Shutdown and an answer never delivered, the doer
+   ended by its stdin watchdog]; the real boss reads every answer before Comms::shutdown unless the sync has already
+   failed.  Proved instead, in EVERY reachable state and whatever the faults [C14_remote_complete_partial]:
+   once the doer has taken the Shutdown and the boss has taken the final message as its final message, everything
+   handed over was delivered exactly once, in order, in both directions, both receiving channels are empty, and the doer
+   executed exactly the boss's commands in order.  Each half on its own: C14_remote_shutdown_complete,
+   C14_remote_final_complete.
+   MISSING for the full (S2): "fault-free /\ final /\ the boss took the final message => the doer took the Shutdown"
+   (needs the fault-free invariant: no comms thread of the doer ends with Err while the boss still holds its socket;
+   the ingredients - all frames on the wire good, C10_remote_expected_nonce - are proved, the invariant is not). *)
+From RJ Require Proofs.RemoteSessionAInv Proofs.RemoteSessionComplete Proofs.RemoteSessionWitness2.
+
+Theorem C14_remote_complete_partial : forall c x s, RemoteSession.reach c x s ->
+  In RemoteSession.MShut (RemoteSession.hgot (RemoteSession.de s)) ->
+  RemoteSession.bfin (RemoteSession.bm s) = true ->
+  RemoteSession.hgot (RemoteSession.de s) = RemoteSession.hsent (RemoteSession.be s) /\
+  RemoteSession.hgot (RemoteSession.be s) = RemoteSession.hsent (RemoteSession.de s) /\
+  RemoteSession.dexec (RemoteSession.dm s) = RemoteSessionAInv.cmd_ids (RemoteSession.hsent (RemoteSession.be s)) /\
+  RemoteSession.q (RemoteSession.inc (RemoteSession.de s)) = [] /\
+  RemoteSession.q (RemoteSession.inc (RemoteSession.be s)) = [].
+Proof. exact RemoteSessionComplete.remote_complete_partial. Qed.
+
+Theorem C14_remote_shutdown_complete : forall c x s, RemoteSession.reach c x s ->
+  In RemoteSession.MShut (RemoteSession.hgot (RemoteSession.de s)) ->
+  RemoteSession.hgot (RemoteSession.de s) = RemoteSession.hsent (RemoteSession.be s) /\
+  RemoteSession.dexec (RemoteSession.dm s) = RemoteSessionAInv.cmd_ids (RemoteSession.hsent (RemoteSession.be s)) /\
+  RemoteSession.q (RemoteSession.inc (RemoteSession.de s)) = [].
+Proof. exact RemoteSessionComplete.got_shutdown_complete. Qed.
+
+Theorem C14_remote_final_complete : forall c x s, RemoteSession.reach c x s ->
+  RemoteSession.bfin (RemoteSession.bm s) = true ->
+  RemoteSession.hgot (RemoteSession.be s) = RemoteSession.hsent (RemoteSession.de s) /\
+  RemoteSession.q (RemoteSession.inc (RemoteSession.be s)) = [].
+Proof. exact RemoteSessionComplete.got_final_complete. Qed.
+
+Theorem C14_remote_complete_needs_final : exists c x s,
+  RemoteSession.reach c x s /\ RemoteSession.final s = true /\ RemoteSession.nfault (RemoteSession.ev s) = 0%nat /\
+  Forall (fun b => b = false) (RemoteSession.sc_eplan x) /\
+  RemoteSession.bexit (RemoteSession.bm s) = 0%N /\ RemoteSession.bfin (RemoteSession.bm s) = false /\
+  RemoteSession.dstat (RemoteSession.ev s) = Some 65%N /\
+  RemoteSession.hsent (RemoteSession.be s) = [RemoteSession.MCmd 1 [11; 12]; RemoteSession.MShut]%N /\
+  RemoteSession.hgot (RemoteSession.de s) = [RemoteSession.MCmd 1 [11; 12]]%N /\
+  RemoteSession.hsent (RemoteSession.de s) = [RemoteSession.MResp 11; RemoteSession.MResp 12]%N /\
+  RemoteSession.hgot (RemoteSession.be s) = [RemoteSession.MResp 11]%N.
+Proof. exact RemoteSessionWitness2.complete_needs_final. Qed.
+
+(* the premises of C14_remote_complete_partial are met by the final state of a complete fault-free session *)
+Example C14_remote_example_premises : exists c x s,
+  RemoteSession.reach c x s /\ RemoteSession.final s = true /\
+  In RemoteSession.MShut (RemoteSession.hgot (RemoteSession.de s)) /\
+  RemoteSession.bfin (RemoteSession.bm s) = true /\ RemoteSession.nfault (RemoteSession.ev s) = 0%nat.
+Proof.
+  exists (RemoteSessionWitness.cfg 0 0), RemoteSessionWitness2.sc_cov, (RemoteSessionLog.base RemoteSessionWitness2.l_cov).
+  destruct RemoteSessionWitness2.log_of_a_complete_session as (A & B & _ & _ & _ & _ & C & D & E & _).
+  split; [apply RemoteSessionNonce.lreach_base; exact A|]. split; [exact B|]. split; [exact D|]. split; [exact C | exact E].
+Qed.
+
+Print Assumptions C14_remote_complete_partial.
+Print Assumptions C14_remote_shutdown_complete.
+Print Assumptions C14_remote_final_complete.
+Print Assumptions C14_remote_complete_needs_final.
